@@ -127,6 +127,18 @@ End Statements.
 (* instances: the miniature sort is a permutation stage, the filter and the pass-through are congruent *)
 Lemma C13_inst_sort w : perm_stage (st_sort w).
 Proof. exact (st_sort_perm_stage w). Qed.
+(* ... for every outcome [key] of its reads of the lifecycle table: two timings = two keys *)
+Lemma C13_inst_sort_any_reads key w : perm_stage (st_sort_key key w).
+Proof. exact (st_sort_key_perm_stage key w). Qed.
+Theorem C13_sorted_instance_permutation key1 key2 w k input :
+  Permutation (compose [st_lc 4; st_id; st_sort_key key1 w; st_drop k] input)
+              (compose [st_lc 4; st_id; st_sort_key key2 w; st_drop k] input).
+Proof.
+  apply (C13_sorted_pipeline_permutation [st_lc 4; st_id] [st_drop k]).
+  - apply st_sort_key_perm_stage.
+  - apply st_sort_key_perm_stage.
+  - constructor; [apply st_drop_congruent|constructor].
+Qed.
 Lemma C13_inst_filter k : perm_congruent (st_drop k).
 Proof. exact (st_drop_congruent k). Qed.
 
@@ -168,4 +180,6 @@ Print Assumptions C13_exec_sound.
 Print Assumptions C13_sorted_pipeline_permutation.
 Print Assumptions C13_inst_sort.
 Print Assumptions C13_inst_filter.
+Print Assumptions C13_inst_sort_any_reads.
+Print Assumptions C13_sorted_instance_permutation.
 Print Assumptions C13_nonvacuous.
